@@ -86,7 +86,7 @@ func plan(c *Ctx, seeds []*Seed, pc planCfg) []Case {
 					f = &ff
 				}
 			}
-			cases = append(cases, Case{Entry: n, Data: m.data, FI: f, Seed: s.Name, Mut: m.mut, Fam: s.Fam})
+			cases = append(cases, Case{Entry: n, Data: m.data, FI: f, Seed: s.Name, Mut: m.mut, Fam: s.Fam, Cost: s.CostMs})
 		}
 	}
 	bySeedFam := map[string][]*Seed{}
@@ -103,17 +103,39 @@ func plan(c *Ctx, seeds []*Seed, pc planCfg) []Case {
 					ff := s.FI
 					f = &ff
 				}
-				cases = append(cases, Case{Entry: e.Name, Data: s.Data, FI: f, Seed: s.Name, Mut: "crossfeed", Fam: s.Fam})
+				cases = append(cases, Case{Entry: e.Name, Data: s.Data, FI: f, Seed: s.Name, Mut: "crossfeed", Fam: s.Fam, Cost: s.CostMs})
 			}
 		}
 	}
 	for si, s := range seeds {
+		// cost-aware thinning: seeds whose valid decode is slow get fewer mutants (div >= 1)
+		div := 1
+		switch {
+		case s.CostMs >= 200:
+			div = 40
+		case s.CostMs >= 40:
+			div = 12
+		case s.CostMs >= 8:
+			div = 4
+		}
+		if pc.thorough {
+			div = (div + 3) / 4
+		}
 		// A1. truncation at every offset of the small streams (header + a sample for large ones)
 		dense := pc.denseTrunc
 		if !s.Small {
 			dense = min(dense, s.HdrLen+48)
 		}
 		tr := truncations(s.Data, dense, 24, rng)
+		if div > 1 { // keep every offset of the header, thin the rest
+			var keep []mutant
+			for i, m := range tr {
+				if len(m.data) <= s.HdrLen+2 || (i+si)%div == 0 {
+					keep = append(keep, m)
+				}
+			}
+			tr = keep
+		}
 		for _, m := range tr {
 			emit(s, m, 2, nil)
 			if pc.thorough {
@@ -134,7 +156,7 @@ func plan(c *Ctx, seeds []*Seed, pc planCfg) []Case {
 				}
 			}
 		} else {
-			for k := 0; k < pc.byteValPer && hl > 0; k++ {
+			for k := 0; k < pc.byteValPer/div+1 && hl > 0; k++ {
 				p, v := rng.Intn(hl), rng.Intn(256)
 				if k%3 == 0 {
 					v = byteEdge[rng.Intn(len(byteEdge))]
@@ -154,22 +176,24 @@ func plan(c *Ctx, seeds []*Seed, pc planCfg) []Case {
 		case famRLE:
 			fm = fieldMutantsRLE(s.Data, rng)
 		}
-		if !pc.thorough && !s.Small {
-			// large fixtures: keep a third of the field mutants in the quick tier
+		if div > 2 {
+			// slow streams: keep a fraction of the field mutants
 			var keep []mutant
 			for i, m := range fm {
-				if (i+si)%3 == 0 {
+				if (i+si)%(div/2) == 0 {
 					keep = append(keep, m)
 				}
 			}
 			fm = keep
 		}
-		for _, m := range fm {
+		for i, m := range fm {
 			emit(s, m, 1, nil)
-			emit(s, m, 0, nil)
+			if div == 1 || i%div == 0 {
+				emit(s, m, 0, nil)
+			}
 		}
 		// A4. havoc
-		for k := 0; k < pc.havocPer; k++ {
+		for k := 0; k < pc.havocPer/div+1; k++ {
 			emit(s, havoc(s.Data, rng, s.HdrLen), 0, nil)
 		}
 		// F. codec level: valid stream with mismatching / degenerate frame descriptions
@@ -179,7 +203,7 @@ func plan(c *Ctx, seeds []*Seed, pc planCfg) []Case {
 			}
 			for _, f := range mismatchFIs(s.FI, rng) {
 				f := f
-				cases = append(cases, Case{Entry: hn, Data: s.Data, FI: &f, Seed: s.Name, Mut: "fi-mismatch", Fam: s.Fam})
+				cases = append(cases, Case{Entry: hn, Data: s.Data, FI: &f, Seed: s.Name, Mut: "fi-mismatch", Fam: s.Fam, Cost: s.CostMs})
 			}
 			break
 		}
@@ -366,6 +390,35 @@ func c09Sig(c *Case, r *Res, s uint64) (sig, what string) {
 	return "", ""
 }
 
+// thin keeps the estimated total decode time of the expensive cases (>= 3 ms) within
+// budgetMs by dropping a random subset of them; at least 3 cases of every
+// (entry point, mutator) pair survive. The case list must already be shuffled.
+func thin(cs []Case, budgetMs int64, rng *Rand) (kept []Case, dropped int) {
+	var total int64
+	for i := range cs {
+		if cs[i].Cost >= 3 {
+			total += cs[i].Cost
+		}
+	}
+	if total <= budgetMs {
+		return cs, 0
+	}
+	p := float64(budgetMs) / float64(total)
+	seen := map[string]int{}
+	for i := range cs {
+		if cs[i].Cost >= 3 {
+			k := cs[i].Entry + "|" + cs[i].Mut
+			seen[k]++
+			if seen[k] > 3 && float64(rng.U64()>>11)/float64(1<<53) > p {
+				dropped++
+				continue
+			}
+		}
+		kept = append(kept, cs[i])
+	}
+	return kept, dropped
+}
+
 func shuffle(cs []Case, rng *Rand) {
 	for i := len(cs) - 1; i > 0; i-- {
 		j := rng.Intn(i + 1)
@@ -377,6 +430,14 @@ func shuffle(cs []Case, rng *Rand) {
 // after a few 10 s penalties) and feeds each result to `on`.
 func execute(c *Ctx, cases []Case, st *runState, on func(cs *Case, r *Res)) {
 	cfg := runCfg{Workers: c.Work, Timeout: watchdog, ASLimit: asLimit}
+	if os.Getenv("PARSERS_VERBOSE") != "" {
+		cnt := map[string]int{}
+		for i := range cases {
+			cnt[cases[i].Mut]++
+			cnt["fam."+cases[i].Fam]++
+		}
+		fmt.Fprintf(os.Stderr, "[parsers] plan: %d cases %v\n", len(cases), cnt)
+	}
 	if v := os.Getenv("PARSERS_MAXCASES"); v != "" { // development aid
 		var n int
 		fmt.Sscan(v, &n)
@@ -693,16 +754,41 @@ func runC08(c *Ctx) {
 		c.R.Note("replay of %d recorded inputs from %s", len(cases), c.Replay)
 	} else {
 		seeds, ns := BuildCorpus(c.Rng.Fork(), c.Thor)
+		if os.Getenv("PARSERS_VERBOSE") != "" {
+			fmt.Fprintf(os.Stderr, "[parsers] corpus built: %d seeds, %.1fs\n", len(seeds), time.Since(t0).Seconds())
+		}
 		for _, n := range ns {
 			c.R.Note("%s", n)
 		}
-		c.R.Note("seed corpus: %d valid streams", len(seeds))
+		MeasureSeeds(seeds, c.Work)
+		slow := 0
+		for _, s := range seeds {
+			if s.CostMs >= 40 {
+				slow++
+			}
+		}
+		if os.Getenv("PARSERS_VERBOSE") != "" {
+			fmt.Fprintf(os.Stderr, "[parsers] seeds measured, %.1fs\n", time.Since(t0).Seconds())
+			for _, s := range seeds {
+				if s.CostMs >= 40 {
+					fmt.Fprintf(os.Stderr, "[parsers]   slow seed %s: %d ms, %d bytes\n", s.Name, s.CostMs, len(s.Data))
+				}
+			}
+		}
+		c.R.Note("seed corpus: %d valid streams (%d with a valid-decode time >= 40 ms get thinned mutation sets)", len(seeds), slow)
 		pc := planCfg{thorough: c.Thor, byteValPer: 160, havocPer: 60, randomPerFam: 4000, splices: 3000, rleFI: 3000, denseTrunc: 1500}
 		if c.Thor {
 			pc.havocPer, pc.randomPerFam, pc.splices, pc.rleFI, pc.denseTrunc = 1500, 60000, 60000, 40000, 4000
 		}
 		cases = plan(c, seeds, pc)
 		shuffle(cases, c.Rng.Fork())
+		budget := int64(c.Work) * 35_000 // ms of estimated decode time: quick tier
+		if c.Thor {
+			budget = int64(c.Work) * 700_000
+		}
+		var dropped int
+		cases, dropped = thin(cases, budget, c.Rng.Fork())
+		c.R.Note("C08 plan: %d cases (%d expensive cases dropped to fit the tier's time budget)", len(cases), dropped)
 		for i := 0; i < 4 && i < len(seeds); i++ {
 			s := seeds[(i*37)%len(seeds)]
 			c.R.Sample(map[string]interface{}{"suite": "c08", "seed": s.Name, "len": len(s.Data), "hdr_len": s.HdrLen, "hex_prefix": hexs(s.Data[:min(48, len(s.Data))])})
@@ -714,9 +800,9 @@ func runC08(c *Ctx) {
 	doneRoot := map[string]bool{}
 	for _, h := range hs {
 		k := rootOf(h.sig)
-		budget := 200
+		budget := 60
 		if !doneRoot[k] {
-			budget = 1500
+			budget = 500
 			doneRoot[k] = true
 		}
 		shrink(c, h, func(cs *Case, r *Res) string { s, _, _ := c08Sig(cs, r); return s }, budget)
@@ -883,6 +969,7 @@ func runC09(c *Ctx) {
 		c.R.Note("replay of %d recorded inputs from %s", len(cases), c.Replay)
 	} else {
 		seeds, _ := BuildCorpus(c.Rng.Fork(), c.Thor)
+		MeasureSeeds(seeds, c.Work)
 		pc := planCfg{thorough: c.Thor, forC09: true, byteValPer: 40, havocPer: 20, randomPerFam: 1500, splices: 800, rleFI: 1500, denseTrunc: 400}
 		if c.Thor {
 			pc.byteValPer, pc.havocPer, pc.randomPerFam, pc.splices, pc.rleFI, pc.denseTrunc = 600, 400, 20000, 20000, 20000, 1500
@@ -928,7 +1015,7 @@ func runC09(c *Ctx) {
 							ff := s.FI
 							f = &ff
 						}
-						all = append(all, Case{Entry: hn, Data: d, FI: f, Seed: s.Name, Mut: m.mut, Fam: s.Fam})
+						all = append(all, Case{Entry: hn, Data: d, FI: f, Seed: s.Name, Mut: m.mut, Fam: s.Fam, Cost: s.CostMs})
 					}
 					rot++
 				}
@@ -955,8 +1042,14 @@ func runC09(c *Ctx) {
 			all[i].Budget = budgetFor(s)
 			cases = append(cases, all[i])
 		}
-		c.R.Note("C09: %d generated cases, %d outside the domain (declared S > 2^22) dropped", len(all), outside)
 		shuffle(cases, c.Rng.Fork())
+		budget := int64(c.Work) * 30_000
+		if c.Thor {
+			budget = int64(c.Work) * 600_000
+		}
+		var dropped int
+		cases, dropped = thin(cases, budget, c.Rng.Fork())
+		c.R.Note("C09: %d generated cases, %d outside the domain (declared S > 2^22) dropped, %d expensive cases dropped to fit the tier's time budget", len(all), outside, dropped)
 	}
 	for i := range cases {
 		if cases[i].Budget == 0 {
